@@ -212,6 +212,12 @@ TAG_TEXT = {
     "AX_pydantic_constructor": "BaseModel.__init__(**kw): declared fields set from kw (lists copied, None kept), defaults otherwise, then the "
                                "validators of the class (each under its own contract)",
     "AX_numpy_uniform_within_bounds": "np.random.uniform(lo, hi) lies in [lo, hi]; np.random.random() in [0, 1)",
+    "AX_numpy_any_is_exists": "np.any(sequence of booleans) is true iff some element is (False for the empty sequence)",
+    "AX_numpy_all_is_forall": "np.all(sequence of booleans) is true iff every element is (True for the empty sequence)",
+    "AX_numpy_compare_elementwise": "ndarray <, <=, >, >= scalar is the fresh boolean array of the element-wise comparisons",
+    "AX_numpy_arith_elementwise": "scalar +, -, * ndarray (either order) is the fresh array of the element-wise results (real arithmetic)",
+    "AX_numpy_zeros": "np.zeros(n), n >= 0: a fresh float array of n zeros",
+    "AX_numpy_ones": "np.ones(n), n >= 0: a fresh float array of n ones",
 }
 
 
